@@ -279,7 +279,7 @@ def gen_cases_conv(rng, tier):
     # well-formed requests in every argument form + a malformed stream (the guard model must predict accept / reject)
     cases += gen_ctor_cases(rng, big)
     # ---------------- Kruskal -> dense
-    kshapes = [[3], [1], [2, 3], [3, 1], [2, 3, 4], [4, 3, 2], [2, 1, 3], [2, 3, 2, 2], [3, 2, 1, 4], [2, 1, 3, 2, 2], [2, 2, 2, 2, 3]]
+    kshapes = [[3], [1], [2, 3], [3, 2], [3, 1], [2, 3, 4], [4, 3, 2], [2, 1, 3], [2, 3, 2, 2], [3, 2, 1, 4], [2, 1, 3, 2, 2], [2, 2, 2, 2, 3]]
     kshapes += [tgen.rand_shape(rng, maxn=5, maxcells=96) for _ in range(60 if big else 10)]
     for shp in kshapes:
         for R in ([0, 1, 2, 3] if (big or len(shp) <= 3) else [rng.choice([1, 2, 3]), 0]):
@@ -327,7 +327,10 @@ def gen_cases_conv(rng, tier):
                 elif q["kind"] == "k":
                     parts.append({"kind": "k", "K": {"weights": [-w for w in q["K"]["weights"]], "factors": q["K"]["factors"]}})
                 else:
-                    parts.append({"kind": "t", "T": dict(q["T"], core=[-v for v in q["T"]["core"]])})
+                    Tn = dict(q["T"], core=[-v for v in q["T"]["core"]])
+                    if "cvals" in Tn:
+                        Tn["cvals"] = [-v for v in Tn["cvals"]]
+                    parts.append({"kind": "t", "T": Tn})
                 continue
             if kind == "d":
                 parts.append({"kind": "d", "data": tgen.rand_dense(rng, shp, rng.choice([0.5, 1.0]))})
@@ -335,9 +338,9 @@ def gen_cases_conv(rng, tier):
                 subs, vals = rand_sp(rng, shp, rng.choice([0.0, 0.3, 0.6]))
                 parts.append({"kind": "s", "subs": subs, "vals": vals})
             elif kind == "k":
-                parts.append({"kind": "k", "K": rand_k(rng, shp, rng.randint(1, 3))})
+                parts.append({"kind": "k", "K": rand_k(rng, shp, rng.choice([0, 1, 1, 2, 2, 3]))})
             else:
-                parts.append({"kind": "t", "T": rand_t(rng, shp, False)})
+                parts.append({"kind": "t", "T": rand_t(rng, shp, rng.random() < 0.4)})     # dense or sparse core
         cases.append(Case("sumfull", {"shape": shp, "parts": parts, "copy": rng.random() < 0.6}, math.prod(shp) > 1))
     return cases
 
@@ -373,10 +376,137 @@ def _arr(np, l):
     return None if l is None else np.array(l, dtype=int)
 
 
+# fourth wave: element types of the arrays handed to the constructors ("u*" only with non-negative data)
+DTYPES = ["i1", "i2", "i4", "i8", "u1", "u2", "f4", "f8"]
+
+
+def np_dtype(np, dt):
+    return {None: np.float64, "i1": np.int8, "i2": np.int16, "i4": np.int32, "i8": np.int64, "u1": np.uint8, "u2": np.uint16,
+            "u4": np.uint32, "f4": np.float32, "f8": np.float64}[dt]
+
+
+class GrowthMismatch(Exception):
+    """the tensor built by out-of-bounds assignments does not hold the intended array (not a conversion defect: C04's ground)"""
+
+
+def mk_dense_grown(ttb, np, shape, data, grow):
+    """the dense tensor `data` reached by a HISTORY: a smaller tensor (or the empty ttb.tensor()) GROWN by assignments outside its
+    current bounds (tensor.__setitem__ re-allocates; the new buffer need not be Fortran-contiguous). grow = {"kind": "elem" | "subs"
+    | "block" | "empty", "from": [d'_k <= d_k], "seed": int, "corner_first": bool}"""
+    import random as _random
+    A = tgen.np_dense(np, shape, data)
+    N = len(shape)
+    rng = _random.Random(grow.get("seed", 0))
+    sub = list(grow.get("from") or [0] * N)
+    kind = grow["kind"]
+    corner = tuple(d - 1 for d in shape)
+    if kind in ("permute", "slice", "add", "reshape", "setitem"):
+        # other one-step histories: the tensor is the RESULT of a public operation (whatever buffer that operation left)
+        if kind == "permute":
+            p = list(range(N))
+            rng.shuffle(p)
+            inv = [p.index(k) for k in range(N)]
+            T = ttb.tensor(np.array(np.transpose(A, inv), order="F"), copy=True).permute(np.array(p))
+        elif kind == "slice":
+            off = [rng.randint(0, 1) for _ in shape]
+            big = np.full(tuple(d + 2 for d in shape), 9.0, order="F")
+            ix = tuple(slice(o, o + d) for o, d in zip(off, shape))
+            big[ix] = A
+            T = ttb.tensor(big, copy=True)[ix]
+        elif kind == "add":
+            A1 = np.array([rng.randint(-3, 3) for _ in range(A.size)], dtype=float).reshape(A.shape, order="F")
+            T = ttb.tensor(A1, copy=True) + ttb.tensor(np.array(A - A1, order="F"), copy=True)
+        elif kind == "reshape":
+            T = ttb.tensor(np.reshape(A, (A.size,), order="F").copy(), copy=True).reshape(tuple(shape))
+        else:
+            B = A.copy(order="F")
+            cells = [tuple(i) for i in tgen.all_subs(shape)]
+            chosen = rng.sample(cells, max(1, len(cells) // 3))
+            for i in chosen:
+                B[i] += rng.choice([-2, 1, 5])
+            T = ttb.tensor(B, copy=True)
+            for i in chosen:
+                T[i] = float(A[i])
+    elif kind == "block":
+        # one mode trimmed, then one slice assignment of the missing slab
+        k = max(range(N), key=lambda m: (shape[m] - sub[m], -m))
+        ix0 = tuple(slice(0, sub[k]) if m == k else slice(None) for m in range(N))
+        T = ttb.tensor(np.array(A[ix0], order="F"), copy=True)
+        ix1 = tuple(slice(sub[k], shape[k]) if m == k else slice(None) for m in range(N))
+        T[ix1] = np.array(A[ix1], order="F")
+    else:
+        if kind == "empty":
+            T = ttb.tensor()
+            inside = lambda i: False
+        else:
+            T = ttb.tensor(np.array(A[tuple(slice(0, d) for d in sub)], order="F"), copy=True)
+            inside = lambda i: all(x < d for x, d in zip(i, sub))
+        todo = [tuple(i) for i in tgen.all_subs(shape) if not inside(i) and A[tuple(i)] != 0 and tuple(i) != corner]
+        rng.shuffle(todo)
+        if not inside(corner):
+            todo.insert(0 if grow.get("corner_first") else len(todo), corner)
+        if kind == "subs" and todo:
+            T[np.array(todo, dtype=int).reshape((len(todo), N))] = np.array([A[i] for i in todo], dtype=float)
+        else:
+            for i in todo:
+                T[i] = float(A[i])
+    if tuple(int(d) for d in T.shape) != tuple(shape) or not np.array_equal(np.asarray(T.data), A):
+        raise GrowthMismatch(f"grown tensor of shape {T.shape} does not hold the intended array")
+    return T
+
+
+def mk_dense_opt(ttb, np, shape, data, dt=None, lay=None, copy=True, grow=None):
+    """tensor(data of element type dt in memory layout lay, shape, copy=copy); grow: reached by growth instead (mk_dense_grown)"""
+    if grow:
+        return mk_dense_grown(ttb, np, shape, data, grow)
+    A = relayout(np, tgen.np_dense(np, shape, data).astype(np_dtype(np, dt)), lay)
+    return ttb.tensor(A, tuple(shape), copy=copy)
+
+
+def mk_sparse_grown(ttb, np, shape, subs, vals, grow):
+    """the sparse tensor (subs, vals, shape) reached by a HISTORY: the first grow["keep"] entries in the smallest shape that holds them
+    (or an empty sptensor), the others stored by assignments outside the current bounds, one by one ("elem") or by one
+    subscript-array assignment ("subs"). Requires distinct subscripts, non-zero values and a shape attained by the entries."""
+    N = len(shape)
+    k = grow["keep"]
+    first, fv = subs[:k], vals[:k]
+    if k == 0:
+        S = ttb.sptensor() if grow.get("empty") == "noshape" else ttb.sptensor(shape=tuple([1] * N))
+    else:
+        sub = tuple(max(x[m] for x in first) + 1 for m in range(N))
+        S = ttb.sptensor(np.array(first, dtype=int).reshape((k, N)), np.array(fv, dtype=float).reshape((k, 1)), sub, copy=True)
+    rest, rv = subs[k:], vals[k:]
+    if grow["kind"] == "subs" and rest:
+        S[np.array(rest, dtype=int).reshape((len(rest), N))] = np.array(rv, dtype=float).reshape((len(rv), 1))
+    else:
+        for x, v in zip(rest, rv):
+            S[tuple(x)] = float(v)
+    got = {tuple(int(i) for i in r): float(v) for r, v in zip(np.asarray(S.subs).reshape((-1, N)), np.asarray(S.vals).ravel())}
+    if tuple(int(d) for d in S.shape) != tuple(shape) or got != {tuple(x): float(v) for x, v in zip(subs, vals)} or S.nnz != len(subs):
+        raise GrowthMismatch(f"grown sparse tensor of shape {S.shape} does not hold the intended entries")
+    return S
+
+
+def mk_sparse_opt(ttb, np, shape, subs, vals, sdt=None, vdt=None, slay=None, vlay=None, copy=True, grow=None):
+    """sptensor(subs of integer type sdt, vals of element type vdt, shape, copy=copy), both in the given memory layouts;
+    grow: reached by growth instead (mk_sparse_grown)"""
+    if grow:
+        return mk_sparse_grown(ttb, np, shape, subs, vals, grow)
+    s = np.array(subs, dtype=int).reshape((len(subs), len(shape))).astype(np_dtype(np, sdt or "i8"))
+    v = np.array(vals, dtype=float).reshape((len(vals), 1)).astype(np_dtype(np, vdt))
+    return ttb.sptensor(relayout(np, s, slay), relayout(np, v, vlay), tuple(shape), copy=copy)
+
+
 def _mk_k(ttb, np, K, shape):
     R = len(K["weights"])
     fm = [np.array(f, dtype=float).reshape((d, R)) for f, d in zip(K["factors"], shape)]
-    Kt = ttb.ktensor([f.copy() for f in fm], np.array(K["weights"], dtype=float), copy=True)
+    ct = K.get("ctor")
+    if ct:               # fourth wave: the constructor itself gets arrays of another memory layout, with copy=True / copy=False
+        w = np.array(K["weights"], dtype=float)
+        Kt = ttb.ktensor([relayout(np, f, ct["lay"][n % len(ct["lay"])]) for n, f in enumerate(fm)],
+                         relayout(np, w, ct.get("wlay")) if w.size else w, copy=ct["copy"])
+    else:
+        Kt = ttb.ktensor([f.copy() for f in fm], np.array(K["weights"], dtype=float), copy=True)
     if K.get("dt"):      # mixed element types: integer-typed, float32 and float64 factors; "h" = the integer entries halved (dyadic,
         # exact in every float type), so full(K) * 2^(number of halved factors) is the integer model's array
         for n, f in enumerate(fm):
@@ -391,11 +521,23 @@ def _mk_k(ttb, np, K, shape):
 
 
 def _mk_t(ttb, np, T, shape):
-    core = tgen.mk_tensor(ttb, np, T["cshape"], T["core"])
+    core = mk_dense_opt(ttb, np, T["cshape"], T["core"], grow=T.get("cgrow"))
     if T.get("sparse_core"):
         subs, vals = (T["csubs"], T["cvals"]) if "csubs" in T else tgen.dense_to_sparse(T["cshape"], T["core"])
         core = tgen.mk_sptensor(ttb, np, T["cshape"], subs, vals)
     fm = [np.array(f, dtype=float).reshape((d, c)) for f, d, c in zip(T["factors"], shape, T["cshape"])]
+    ct = T.get("ctor")
+    if ct:               # fourth wave: element types / memory layouts of core and factors, ttensor(copy=True / False)
+        if T.get("sparse_core"):
+            subs, vals = (T["csubs"], T["cvals"]) if "csubs" in T else tgen.dense_to_sparse(T["cshape"], T["core"])
+            core = mk_sparse_opt(ttb, np, T["cshape"], subs, vals, sdt=ct.get("sdt"), vdt=ct.get("cdt"), copy=ct.get("ccopy", True))
+        else:
+            core = mk_dense_opt(ttb, np, T["cshape"], T["core"], dt=ct.get("cdt"), lay=ct.get("clay"), copy=ct.get("ccopy", True))
+        fs = [relayout(np, f.astype(np_dtype(np, ct["fdt"][n % len(ct["fdt"])])), ct["lay"][n % len(ct["lay"])]) for n, f in enumerate(fm)]
+        if ct.get("coo"):    # factor matrices handed over as scipy sparse coo matrices (the constructor admits them)
+            from scipy import sparse as sps
+            fs = [sps.coo_matrix(f) if ct["coo"][n % len(ct["coo"])] else f for n, f in enumerate(fs)]
+        return ttb.ttensor(core, fs, copy=ct["copy"])
     Tt = ttb.ttensor(core, [f.copy() for f in fm], copy=True)
     if T.get("lay"):
         for n, f in enumerate(fm):
@@ -440,12 +582,18 @@ def _part_unchanged(shape, p, q):
     if p["kind"] == "d":
         return q["d"] == {"shape": list(shape), "data": p["data"]}
     if p["kind"] == "s":
+        if p.get("grow"):    # stored order after growth by assignment is pyttb's business: the same entries, each once
+            return (len(q["s"]["subs"]) == len(p["subs"]) and q["s"]["shape"] == list(shape) and
+                    {tuple(x): v for x, v in zip(q["s"]["subs"], q["s"]["vals"])} == {tuple(x): v for x, v in zip(p["subs"], p["vals"])})
         return q["s"]["subs"] == p["subs"] and q["s"]["vals"] == p["vals"] and q["s"]["shape"] == list(shape)
     if p["kind"] == "k":
         R = len(p["K"]["weights"])
         return q["weights"] == p["K"]["weights"] and all((qf == pf) or (R == 0 and qf in ([], [[] for _ in pf]))
                                                          for qf, pf in zip(q["factors"], p["K"]["factors"]))
     T = p["T"]
+    if "csubs" in T:         # sparse core: the stored coordinate list as given
+        return (q["core"]["shape"] == T["cshape"] and q["core"].get("subs") == T["csubs"] and q["core"].get("vals") == T["cvals"]
+                and q["factors"] == T["factors"])
     return q["core"]["shape"] == T["cshape"] and q["core"].get("data") == T["core"] and q["factors"] == T["factors"]
 
 
@@ -469,12 +617,18 @@ def run_conv(c):
     a = c.args
     try:
         if c.op == "to_tenmat":
-            T = tgen.mk_tensor(ttb, np, a["shape"], a["data"])
+            T = mk_dense_opt(ttb, np, a["shape"], a["data"], dt=a.get("dt"), lay=a.get("lay"), copy=a.get("copy", True), grow=a.get("grow"))
             M = T.to_tenmat(_arr(np, a["rd"]), _arr(np, a["cd"]), a["cy"])
-            return {"ok": _obs_tenmat(np, M), "back": _sub(lambda: tgen.obs_dense(np, M.to_tensor())),
-                    "double": _sub(lambda: tgen.obs_dense(np, M.double()))}
+            out = {"ok": _obs_tenmat(np, M), "back": _sub(lambda: tgen.obs_dense(np, M.to_tensor())),
+                   "double": _sub(lambda: tgen.obs_dense(np, M.double()))}
+            # option corner (fourth wave): to_tensor(copy=False) may reuse the matrix buffer; same tensor, tenmat and operand unchanged
+            out["back_nc"] = _sub(lambda: tgen.obs_dense(np, M.to_tensor(copy=False)))
+            out["ok_after"] = _sub(lambda: _obs_tenmat(np, M))
+            out["t_full"] = _sub(lambda: tgen.obs_dense(np, T.full()))       # tensor.full(): the tensor itself
+            return out
         if c.op in ("to_sptenmat", "sptenmat_back", "sptenmat_full"):
-            S = tgen.mk_sptensor(ttb, np, a["shape"], a["subs"], a["vals"])
+            S = mk_sparse_opt(ttb, np, a["shape"], a["subs"], a["vals"], sdt=a.get("sdt"), vdt=a.get("vdt"), slay=a.get("slay"),
+                              vlay=a.get("vlay"), copy=a.get("copy", True), grow=a.get("grow"))
             M = S.to_sptenmat(_arr(np, a["rd"]), _arr(np, a["cd"]), a["cy"])
             if c.op == "to_sptenmat":
                 return {"ok": _obs_sptenmat(np, M), "double": _sub(lambda: tgen.obs_dense(np, M.double().toarray())),
@@ -483,20 +637,22 @@ def run_conv(c):
                 return {"ok": tgen.obs_sparse(np, M.to_sptensor())}
             return {"ok": _obs_tenmat(np, M.full())}
         if c.op == "spmatrix":
-            S = tgen.mk_sptensor(ttb, np, a["shape"], a["subs"], a["vals"])
+            S = mk_sparse_opt(ttb, np, a["shape"], a["subs"], a["vals"], sdt=a.get("sdt"), vdt=a.get("vdt"), copy=a.get("copy", True))
             Cm = S.spmatrix()
             return {"ok": tgen.obs_dense(np, Cm.toarray()), "coo": _obs_coo(np, Cm)}
         if c.op == "from_array":
-            A = relayout(np, tgen.np_dense(np, a["mshape"], a["mdata"]), a.get("lay"))
+            A = relayout(np, tgen.np_dense(np, a["mshape"], a["mdata"]).astype(np_dtype(np, a.get("dt"))), a.get("lay"))
             if a["coo"]:
                 t = a["trip"]
-                A = sps.coo_matrix((np.array([x[2] for x in t], dtype=float),
-                                    (np.array([x[0] for x in t], dtype=int), np.array([x[1] for x in t], dtype=int))),
+                A = sps.coo_matrix((np.array([x[2] for x in t], dtype=float).astype(np_dtype(np, a.get("dt"))),
+                                    (np.array([x[0] for x in t], dtype=np_dtype(np, a.get("sdt") or "i8")),
+                                     np.array([x[1] for x in t], dtype=np_dtype(np, a.get("sdt") or "i8")))),
                                    shape=tuple(a["mshape"]))
             M = ttb.sptenmat.from_array(A, _arr(np, a["rd"]), _arr(np, a["cd"]), tuple(a["tshape"]))
             return {"ok": _obs_sptenmat(np, M)}
         if c.op == "tenmat_ctor":
-            data = None if a["dshape"] is None else relayout(np, tgen.np_dense(np, a["dshape"], a["data"]), a.get("lay"))
+            data = None if a["dshape"] is None else relayout(np, tgen.np_dense(np, a["dshape"], a["data"]).astype(np_dtype(np, a.get("dt"))),
+                                                             a.get("lay"))
             ts = None if a["tshape"] is None else tuple(a["tshape"])
             M = ttb.tenmat(data, _arr(np, a["rd"]), _arr(np, a["cd"]), ts, copy=a.get("copy", True))
             out = {"ok": _obs_tenmat(np, M)}
@@ -507,6 +663,10 @@ def run_conv(c):
         if c.op == "sptenmat_ctor":
             subs = None if a["subs"] is None else np.array(a["subs"], dtype=int).reshape((len(a["subs"]), 2))
             vals = None if a["vals"] is None else np.array(a["vals"], dtype=float).reshape((len(a["vals"]), 1))
+            if subs is not None and a.get("sdt"):        # fourth wave: integer type of the index array / element type / layouts
+                subs = relayout(np, subs.astype(np_dtype(np, a["sdt"])), a.get("slay"))
+            if vals is not None and a.get("vdt"):
+                vals = relayout(np, vals.astype(np_dtype(np, a["vdt"])), a.get("vlay"))
             M = ttb.sptenmat(subs, vals, _arr(np, a["rd"]), _arr(np, a["cd"]), tuple(a["tshape"]))
             return {"ok": _obs_sptenmat(np, M), "back": _sub(lambda: tgen.obs_sparse(np, M.to_sptensor())),
                     "again": _sub(lambda: _obs_sptenmat(np, M.to_sptensor().to_sptenmat(M.rdims.copy(), M.cdims.copy())))}
@@ -525,24 +685,29 @@ def run_conv(c):
                 scaled(ob["data"])
                 return ob
             return {"ok": scaled(tgen.obs_dense(np, K.full())), "double": _sub(lambda: scaled(tgen.obs_dense(np, K.double()))),
+                    "to_tensor": _sub(lambda: scaled(tgen.obs_dense(np, K.to_tensor()))),
                     "tenmat": _sub(lambda: scaled_tm(_obs_tenmat(np, K.to_tenmat(_arr(np, rq["rd"]), _arr(np, rq["cd"]), rq["cy"]))))}
         if c.op == "tfull":
             T = _mk_t(ttb, np, a["T"], a["shape"])
-            return {"ok": tgen.obs_dense(np, T.full()), "double": _sub(lambda: tgen.obs_dense(np, T.double()))}
+            return {"ok": tgen.obs_dense(np, T.full()), "double": _sub(lambda: tgen.obs_dense(np, T.double())),
+                    "to_tensor": _sub(lambda: tgen.obs_dense(np, T.to_tensor()))}
         if c.op == "sumfull":
             parts = []
             for p in a["parts"]:
                 if p["kind"] == "d":
-                    parts.append(tgen.mk_tensor(ttb, np, a["shape"], p["data"]))
+                    parts.append(mk_dense_opt(ttb, np, a["shape"], p["data"], dt=p.get("dt"), lay=p.get("lay"), copy=p.get("copy", True),
+                                              grow=p.get("grow")))
                 elif p["kind"] == "s":
-                    parts.append(tgen.mk_sptensor(ttb, np, a["shape"], p["subs"], p["vals"]))
+                    parts.append(mk_sparse_opt(ttb, np, a["shape"], p["subs"], p["vals"], sdt=p.get("sdt"), vdt=p.get("dt"),
+                                               copy=p.get("copy", True), grow=p.get("grow")))
                 elif p["kind"] == "k":
                     parts.append(_mk_k(ttb, np, p["K"], a["shape"]))
                 else:
                     parts.append(_mk_t(ttb, np, p["T"], a["shape"]))
             st = ttb.sumtensor(parts, copy=a.get("copy", True))
             first = st.full()
-            out = {"ok": tgen.obs_dense(np, first), "double": _sub(lambda: tgen.obs_dense(np, st.double()))}
+            out = {"ok": tgen.obs_dense(np, first), "double": _sub(lambda: tgen.obs_dense(np, st.double())),
+                   "to_tensor": _sub(lambda: tgen.obs_dense(np, st.to_tensor()))}
             # history: the same sumtensor converted again; the first result and every part looked at afterwards (raw)
             out["again"] = _sub(lambda: tgen.obs_dense(np, st.full()))
             out["first_after"] = tgen.obs_dense(np, first)
@@ -621,6 +786,8 @@ def check_conv(c, o):
         if not _ints_dense(ob["data"]) or not _ints_dense(o["back"]) or not _ints_dense(o["double"]):
             return "false"
         if o["double"] != ob["data"] or ob["shape"] != ob["data"]["shape"]:
+            return "false"
+        if "back_nc" in o and (o["back_nc"] != o["back"] or o["ok_after"] != ob or o["t_full"] != {"shape": a["shape"], "data": a["data"]}):
             return "false"
         return f"tm_ok {call} (Some {_gtm(ob)}) {T} {tgen.gdense(o['back']['shape'], o['back']['data'])}"
     if c.op in ("to_sptenmat", "sptenmat_back", "sptenmat_full"):
@@ -720,7 +887,7 @@ def check_conv(c, o):
         K = _gk(a["K"])
         if exc:
             return f"kfull_ok {K} None"
-        if not _ints_dense(o["ok"]) or o.get("double") != o["ok"]:
+        if not _ints_dense(o["ok"]) or o.get("double") != o["ok"] or o.get("to_tensor", o["ok"]) != o["ok"]:
             return "false"
         tm = o.get("tenmat")
         if not isinstance(tm, dict) or "data" not in tm or not _ints_dense(tm["data"]):
@@ -734,7 +901,7 @@ def check_conv(c, o):
         T = _gt(a["T"])
         if exc:
             return f"tfull_ok {T} None"
-        if not _ints_dense(o["ok"]) or o.get("double") != o["ok"]:
+        if not _ints_dense(o["ok"]) or o.get("double") != o["ok"] or o.get("to_tensor", o["ok"]) != o["ok"]:
             return "false"
         D = tgen.gdense(o['ok']['shape'], o['ok']['data'])
         chk = f"tfull_ok {T} (Some {D}) && dense_eqb (zt_double {T}) {D}"
@@ -754,11 +921,20 @@ def check_conv(c, o):
             else:
                 ps.append(f"PT {_gt(p['T'])}")
         P = "[" + "; ".join(ps) + "]"
+        # the parts as pyttb holds them (a Tucker part with a sparse core keeps its coordinate list): sumtensor.full as executed
+        ps4 = []
+        for p, g in zip(a["parts"], ps):
+            if p["kind"] == "t" and "csubs" in p["T"]:
+                ps4.append(f"QTS {tgen.gsparse(p['T']['cshape'], p['T']['csubs'], p['T']['cvals'])} {_gmat_list(p['T']['factors'])}")
+            else:
+                ps4.append("Q" + g[1:])
+        P4 = "[" + "; ".join(ps4) + "]"
         if exc:
             return f"sumfull_ok {P} {gnlist(a['shape'])} None"
-        if not _ints_dense(o["ok"]) or o.get("double") != o["ok"]:
+        if not _ints_dense(o["ok"]) or o.get("double") != o["ok"] or o.get("to_tensor", o["ok"]) != o["ok"]:
             return "false"
-        chk = f"sumfull_ok {P} {gnlist(a['shape'])} (Some {tgen.gdense(o['ok']['shape'], o['ok']['data'])})"
+        Dsum = tgen.gdense(o['ok']['shape'], o['ok']['data'])
+        chk = f"sumfull_ok {P} {gnlist(a['shape'])} (Some {Dsum}) && sumfull_code_ok {P4} (Some {Dsum})"
         if "again" in o:
             # second conversion of the same object against the same model; first result and all parts unchanged
             if not _ints_dense(o["again"]) or o["first_after"] != o["ok"]:
@@ -941,6 +1117,13 @@ def oracle_conv(c, o):
                     return f"matrix entry ({row},{col}) is not tensor entry {i}"
             if "exc" in o["back"] or o["back"]["data"] != a["data"] or o["back"]["shape"] != shp:
                 return "to_tensor(to_tenmat(T)) is not T"
+            if "back_nc" in o:
+                if o["back_nc"] != o["back"]:
+                    return "to_tensor(copy=False) of the tenmat is not T"
+                if o["ok_after"] != ob:
+                    return "the tenmat changed during to_tensor"
+                if o["t_full"] != {"shape": shp, "data": a["data"]}:
+                    return "tensor.full() is not the tensor"
             return None
         din = {tuple(s): v for s, v in zip(a["subs"], a["vals"])}
         if c.op == "to_sptenmat":
@@ -985,8 +1168,8 @@ def oracle_conv(c, o):
         want = [_den_k(a["K"], i) for i in tgen.all_subs(a["shape"])]
         if o["ok"]["data"] != want or o["ok"]["shape"] != a["shape"]:
             return "full(K) differs from sum_r w_r prod_n A_n[i_n,r]"
-        if o.get("double") != o["ok"]:
-            return "double(K) differs from full(K)"
+        if o.get("double") != o["ok"] or o.get("to_tensor", o["ok"]) != o["ok"]:
+            return "double(K) / to_tensor(K) differs from full(K)"
         tm = o.get("tenmat")
         if not isinstance(tm, dict) or "data" not in tm:
             return f"to_tenmat(K) raised: {tm}"
@@ -1002,7 +1185,11 @@ def oracle_conv(c, o):
         return None
     if c.op == "tfull":
         want = [_den_t(a["T"], i) for i in tgen.all_subs(a["shape"])]
-        return None if o["ok"]["data"] == want and o["ok"]["shape"] == a["shape"] else "full(T) differs from sum_j G[j] prod_n U_n[i_n,j_n]"
+        if o["ok"]["data"] != want or o["ok"]["shape"] != a["shape"]:
+            return "full(T) differs from sum_j G[j] prod_n U_n[i_n,j_n]"
+        if o.get("double", o["ok"]) != o["ok"] or o.get("to_tensor", o["ok"]) != o["ok"]:
+            return "double(T) / to_tensor(T) differs from full(T)"
+        return None
     if c.op == "sumfull":
         want = []
         for i in tgen.all_subs(a["shape"]):
@@ -1019,8 +1206,8 @@ def oracle_conv(c, o):
             want.append(tot)
         if o["ok"]["data"] != want or o["ok"]["shape"] != a["shape"]:
             return "full(sum) differs from the sum of the parts"
-        if o.get("double") != o["ok"]:
-            return "double(sum) differs from full(sum)"
+        if o.get("double") != o["ok"] or o.get("to_tensor", o["ok"]) != o["ok"]:
+            return "double(sum) / to_tensor(sum) differs from full(sum)"
         if "again" in o:
             if o["again"] != o["ok"]:
                 return "converting the same sumtensor a second time gives a different array"
@@ -1035,21 +1222,45 @@ def oracle_conv(c, o):
 
 
 # ---------------------------------------------------------------------------------------- known findings
-# (A-01, A-02, A-02b, N-C01-2, N-C01-3, N-C01-4 are repaired in /repo: no trigger, no witness — a regression is a violation)
-TRIGGERS = {
-    "kruskal_rank0": lambda c: c.op == "kfull" and len(c.args["K"]["weights"]) == 0 and len(c.args["shape"]) > 1,
-}
+# A-01, A-02, A-02b, N-C01-1 (rank-0 Kruskal, /repo d9f07bf), N-C01-2, N-C01-3, N-C01-4 are all repaired in /repo: no trigger,
+# no witness — a regression is a violation. The witness inputs stay in the stream as ordinary cases (kfull with R = 0 on every
+# shape of `kshapes`, [3, 2] included; rank-0 Kruskal parts inside sums).
+# Open: N-C01-5 — ttensor(core, factors, copy=False) raises AttributeError when a factor matrix is a scipy coo_matrix (admitted by the
+# type check and by copy=True): exactly the requests tfull + ctor.copy == False + at least one coo factor.
+def _t_coo_nocopy(c):
+    """exactly the requests on which the copy=False path asks a coo matrix for its layout flags: the constructor tests the factors
+    in order with all(...), so a coo factor is reached only when every ndarray factor BEFORE it is Fortran-contiguous"""
+    ct = c.args["T"].get("ctor") if c.op == "tfull" else None
+    if not ct or ct.get("copy", True) or not ct.get("coo"):
+        return False
+    import numpy as np
+    T = c.args["T"]
+    for n, (f, d, j) in enumerate(zip(T["factors"], c.args["shape"], T["cshape"])):
+        if ct["coo"][n % len(ct["coo"])]:
+            return True
+        A = relayout(np, np.array(f, dtype=float).reshape((d, j)).astype(np_dtype(np, ct["fdt"][n % len(ct["fdt"])])),
+                     ct["lay"][n % len(ct["lay"])])
+        if not A.flags["F_CONTIGUOUS"]:
+            return False
+    return False
 
 
-def _w_rank0():
+TRIGGERS = {"tucker_coo_factor_nocopy": _t_coo_nocopy}
+
+
+def _w_coo_nocopy():
     import numpy as np
     import pyttb as ttb
+    from scipy import sparse as sps
+    core = ttb.tensor(np.array([[1.0, 2.0], [3.0, 4.0]]))
+    U0, U1 = np.array([[1.0, 0.0], [2.0, 1.0], [0.0, 3.0]]), np.array([[1.0, 1.0], [0.0, 2.0]])
+    want = np.einsum("ab,ia,jb->ij", core.data, U0, U1)
     try:
-        K = ttb.ktensor([np.zeros((3, 0)), np.zeros((2, 0))], np.zeros(0))
-        d = K.full().data
-        return None if d.shape == (3, 2) and not d.any() else f"wrong result {d}"
+        T = ttb.ttensor(core, [sps.coo_matrix(U0), np.asfortranarray(U1)], copy=False)
+        d = T.full().data
+        return None if np.array_equal(d, want) else f"wrong result {d}"
     except Exception as ex:
-        return f"rank-0 ktensor.full() raised {type(ex).__name__}: {ex}"
+        return f"ttensor(core, [coo_matrix, ndarray], copy=False) raised {type(ex).__name__}: {ex}"
 
 
-WITNESSES = {"N-C01-1": _w_rank0}
+WITNESSES = {"N-C01-5": _w_coo_nocopy}
